@@ -9,6 +9,7 @@ import Penguin.Model.Frame
 import Penguin.Lemmas.Link
 import Penguin.Lemmas.MuxStep
 import Penguin.Lemmas.PairHarness
+import Penguin.Lemmas.PairBytes
 
 namespace Penguin.C02
 open Penguin Penguin.Link
@@ -136,6 +137,43 @@ example : Pair.Cfg pcfg pcfg [7, 8] [9, 10] := ⟨by decide, by decide, by decid
 example : Pair.Established (Pair.run (Pair.init pcfg pcfg [7, 8] [9, 10]) pacts) 7 0 0 :=
   ⟨by decide, by decide, by decide, by decide, by decide⟩
 example : (Pair.run (Pair.init pcfg pcfg [7, 8] [9, 10]) pacts).gb.rlog 0 = [1, 2, 3] := by decide
+
+/-! ### … and over BYTE wires (`Penguin.PairBytes`): what really travels -/
+
+open Penguin.Mux Penguin.Pair Penguin.PairBytes in
+/-- `pair_bytes_conserved` for two endpoint models joined by wires that carry the ENCODED bytes of
+    each frame, the receiver decoding before `process_frame`: on every flow established on both
+    endpoints, in every reachable state, what `b`'s application has read, what its handle buffers,
+    what its queue holds, the `Push` payloads found by decoding the Binary messages in transit and
+    those still queued at `a` add up, in order, to exactly what `a`'s application wrote.
+    (`c`: sane windows, distinct non-zero ids; `w`, `has`: the ranges the Rust types enforce — see
+    `C09.byte_pair_refines_frame_pair`, through which the frame-level theorem is transported.) -/
+theorem pair_bytes_conserved_over_byte_wires {oa ob : Opts} {ra rb : List Nat} (c : Cfg oa ob ra rb)
+    (w : WireCfg oa ob ra rb) (as : List (Pair.Side × Pair.Act)) (has : ∀ sa ∈ as, sa.2.inRange)
+    {x i j : Nat} (e : Established (runb (initb oa ob ra rb) as).view x i j) :
+    let pb := runb (initb oa ob ra rb) as
+    ∃ oB, pb.b.objs[j]? = some oB ∧
+      pb.gb.rlog j ++ oB.buf ++ oB.rxq.flatten ++ (pushesOf x (decWire pb.ab ++ pb.a.outq)).flatten = pb.ga.wlog i ∧
+      pb.gb.rlog j <+: pb.ga.wlog i := by
+  intro pb
+  have he : pb = enc (Pair.run (Pair.init oa ob ra rb) as) := reach_enc w as has
+  have hv : pb.view = Pair.run (Pair.init oa ob ra rb) as := by rw [he]; exact view_enc _ (reach_wf w as has)
+  have e' : Established (Pair.run (Pair.init oa ob ra rb) as) x i j := by rw [← hv]; exact e
+  have h := pair_bytes_conserved c as e'
+  simp only at h
+  rw [← hv] at h
+  exact h
+
+/-! Non-vacuity over byte wires: the run above, the flow established, the `Push` in transit as bytes. -/
+private def pactsW : List (Pair.Side × Pair.Act) :=
+  [(.A, .open 1 [104] 80), (.A, .xmit), (.B, .recv), (.B, .xmit), (.A, .recv), (.A, .runDone), (.B, .accept),
+   (.A, .write 0 [1, 2, 3]), (.A, .xmit)]
+example : PairBytes.WireCfg pcfg pcfg [7, 8] [9, 10] := ⟨by decide, by decide, by decide⟩
+example : ∀ sa ∈ pactsW, sa.2.inRange := by decide
+example : Pair.Established (PairBytes.runb (PairBytes.initb pcfg pcfg [7, 8] [9, 10]) pactsW).view 7 0 0 :=
+  ⟨by decide, by decide, by decide, by decide, by decide⟩
+example : (PairBytes.runb (PairBytes.initb pcfg pcfg [7, 8] [9, 10]) pactsW).ab = [.bin [0x74, 0, 0, 0, 7, 1, 2, 3]] := by decide
+example : (PairBytes.runb (PairBytes.initb pcfg pcfg [7, 8] [9, 10]) pactsW).ga.wlog 0 = [1, 2, 3] := by decide
 
 /-! Non-vacuity -/
 example : (run (init 2 2) [.write [1, 2, 3], .deliver, .read 2, .write [4], .deliver, .read 9, .read 9]).delivered
